@@ -193,23 +193,43 @@ func natsHex(v []*big.Int) string {
 	return sb.String()
 }
 
-type voleCase struct {
-	idx    int
+// voleCall is one Mul on both sides.
+type voleCall struct {
 	m      int
 	mod    modulus
-	base   string // "ideal" | "co"
 	xs, ys []*big.Int
-	delta  []byte
-	seedS  uint64
-	seedR  uint64
-	frag   *hxlib.Rng
+	how    string // how the call was derived from the previous one
 }
 
-// runVole runs one session; returns the op line and the result line.
+// voleCase is one Sender/Receiver pair and the history of Mul calls on it.
+type voleCase struct {
+	idx   int
+	base  string // "ideal" | "co"
+	calls []voleCall
+	delta []byte
+	seedS uint64
+	seedR uint64
+	frag  *hxlib.Rng
+}
+
+func roundUp8(m int) int { return (m + 7) / 8 * 8 }
+
+func (c *voleCase) summary() string {
+	var sb strings.Builder
+	for j, cl := range c.calls {
+		if j > 0 {
+			sb.WriteString(", ")
+		}
+		fmt.Fprintf(&sb, "m=%d/p=%s", cl.m, cl.mod.name)
+	}
+	return sb.String()
+}
+
+// runVole runs one history of Mul calls on one pair; returns the op line and
+// the result line.
 func runVole(o *hxlib.Out, c *voleCase) (string, string) {
-	p := c.mod.p
 	detail := func(extra map[string]any) map[string]any {
-		d := map[string]any{"case": c.idx, "m": c.m, "p": p.Text(16), "modulus": c.mod.name, "base": c.base,
+		d := map[string]any{"case": c.idx, "calls": c.summary(), "base": c.base,
 			"rerun": fmt.Sprintf("go run -tags verif ./cmd/c20 vole -seed %d -n %d -tier %s -only %d (in /verif/harness)", runSeed, runN, runTier, c.idx)}
 		for k, v := range extra {
 			d[k] = v
@@ -229,7 +249,9 @@ func runVole(o *hxlib.Out, c *voleCase) (string, string) {
 	}
 	recS := &hxlib.RecOT{OT: baseS}
 
-	var rs, us []*big.Int
+	k := len(c.calls)
+	rsAll := make([][]*big.Int, 0, k)
+	usAll := make([][]*big.Int, 0, k)
 	var errS, errR error
 	var panS, panR any
 	sdone := make(chan struct{})
@@ -244,8 +266,12 @@ func runVole(o *hxlib.Out, c *voleCase) (string, string) {
 		}()
 		var s *vole.Sender
 		s, errS = vole.NewSender(recS, cs, &hxlib.Tape{Data: c.delta})
-		if errS == nil {
-			rs, errS = s.Mul(c.xs, p)
+		for j := 0; errS == nil && j < k; j++ {
+			var rs []*big.Int
+			rs, errS = s.Mul(c.calls[j].xs, c.calls[j].mod.p)
+			if errS == nil {
+				rsAll = append(rsAll, rs)
+			}
 		}
 		if errS != nil {
 			d.Close()
@@ -261,8 +287,12 @@ func runVole(o *hxlib.Out, c *voleCase) (string, string) {
 		}()
 		var r *vole.Receiver
 		r, errR = vole.NewReceiver(baseR, cr, hxlib.NewRng(c.seedR+1))
-		if errR == nil {
-			us, errR = r.Mul(c.ys, p)
+		for j := 0; errR == nil && j < k; j++ {
+			var us []*big.Int
+			us, errR = r.Mul(c.calls[j].ys, c.calls[j].mod.p)
+			if errR == nil {
+				usAll = append(usAll, us)
+			}
 		}
 		if errR != nil {
 			d.Close()
@@ -295,81 +325,115 @@ func runVole(o *hxlib.Out, c *voleCase) (string, string) {
 	}
 	d.Close()
 
-	opNoLabels := func(labels string) string {
-		return fmt.Sprintf("c20 vole %s %s %s %s", p.Text(16), labels, natsHex(c.xs), natsHex(c.ys))
+	var callsSB strings.Builder
+	for _, cl := range c.calls {
+		fmt.Fprintf(&callsSB, " %s %s %s", cl.mod.p.Text(16), natsHex(cl.xs), natsHex(cl.ys))
 	}
+	opWith := func(stream string) string { return "c20 voles " + stream + callsSB.String() }
 	if stalled {
 		stalls++
 	}
 	if stalled || panS != nil || panR != nil || errS != nil || errR != nil {
 		o.Fail("c20-vole-error", detail(map[string]any{"stalled": stalled, "sender_panic": fmt.Sprint(panS),
 			"receiver_panic": fmt.Sprint(panR), "sender_err": fmt.Sprint(errS), "receiver_err": fmt.Sprint(errR),
-			"x0": c.xs[0].Text(16), "y0": c.ys[0].Text(16)}))
-		return opNoLabels("-"), "session-failed"
+			"sender_calls_done": len(rsAll), "receiver_calls_done": len(usAll)}))
+		return opWith("-"), "session-failed"
 	}
 
-	// ---- oracle: the share relation on the real outputs
-	if len(rs) != c.m || len(us) != c.m {
-		o.Fail("c20-vole-length", detail(map[string]any{"len_r": len(rs), "len_u": len(us)}))
-	} else {
-		for i := 0; i < c.m; i++ {
+	// ---- oracle: the share relation on the real outputs, after every call
+	for j, cl := range c.calls {
+		rs, us, p := rsAll[j], usAll[j], cl.mod.p
+		cd := func(extra map[string]any) map[string]any {
+			extra["call"] = j
+			extra["m"] = cl.m
+			extra["p"] = p.Text(16)
+			extra["modulus"] = cl.mod.name
+			extra["how"] = cl.how
+			return detail(extra)
+		}
+		if len(rs) != cl.m || len(us) != cl.m {
+			o.Fail("c20-vole-length", cd(map[string]any{"len_r": len(rs), "len_u": len(us)}))
+			continue
+		}
+		for i := 0; i < cl.m; i++ {
 			r, u := rs[i], us[i]
 			if r == nil || u == nil || r.Sign() < 0 || u.Sign() < 0 || r.Cmp(p) >= 0 || u.Cmp(p) >= 0 {
-				o.Fail("c20-vole-range", detail(map[string]any{"i": i, "r": fmt.Sprint(r), "u": fmt.Sprint(u)}))
+				o.Fail("c20-vole-range", cd(map[string]any{"i": i, "r": fmt.Sprint(r), "u": fmt.Sprint(u)}))
 				break
 			}
 			left := new(big.Int).Sub(u, r)
 			left.Mod(left, p)
-			right := new(big.Int).Mul(c.xs[i], c.ys[i])
+			right := new(big.Int).Mul(cl.xs[i], cl.ys[i])
 			right.Mod(right, p)
 			if left.Cmp(right) != 0 {
-				o.Fail("c20-vole-relation", detail(map[string]any{"i": i, "x": c.xs[i].Text(16), "y": c.ys[i].Text(16),
+				o.Fail("c20-vole-relation", cd(map[string]any{"i": i, "x": cl.xs[i].Text(16), "y": cl.ys[i].Text(16),
 					"r": r.Text(16), "u": u.Text(16), "u_minus_r": left.Text(16), "xy": right.Text(16)}))
 				break
 			}
 		}
 	}
 
-	// ---- transcript: column stream + y message (receiver -> sender), u message
-	frames := iknpFrameSizes(c.m)
-	tail := 4 + 32*c.m
-	for _, f := range frames {
-		tail += 4 + f
+	// ---- transcript: per call the column stream + y message (receiver ->
+	// sender) and the u message (sender -> receiver)
+	tailBA, tailAB := 0, 0
+	for _, cl := range c.calls {
+		if cl.m == 0 {
+			continue
+		}
+		for _, f := range iknpFrameSizes(cl.m) {
+			tailBA += 4 + f
+		}
+		tailBA += 4 + 32*cl.m
+		tailAB += 4 + 32*cl.m
 	}
 	ba := d.BA.Rec
 	ab := d.AB.Rec
-	shape := len(ba) >= tail && len(ab) >= 4+32*c.m
+	shape := len(ba) >= tailBA && len(ab) >= tailAB
 	if shape && c.base == "ideal" {
-		shape = len(ba) == tail && len(ab) == 4+32*c.m
+		shape = len(ba) == tailBA && len(ab) == tailAB
 	}
-	var cols, ymsg, umsg []byte
+	var cols []byte
+	ymsgs := make([][]byte, k)
+	umsgs := make([][]byte, k)
 	if shape {
-		off := len(ba) - tail
-		for _, f := range frames {
-			if be32(ba[off:]) != f {
+		off := len(ba) - tailBA
+		offU := len(ab) - tailAB
+		for j, cl := range c.calls {
+			if cl.m == 0 || !shape {
+				continue
+			}
+			for _, f := range iknpFrameSizes(cl.m) {
+				if be32(ba[off:]) != f {
+					shape = false
+					break
+				}
+				cols = append(cols, ba[off:off+4+f]...)
+				off += 4 + f
+			}
+			if !shape {
+				break
+			}
+			if be32(ba[off:]) != 32*cl.m || be32(ab[offU:]) != 32*cl.m {
 				shape = false
 				break
 			}
-			off += 4 + f
+			ymsgs[j] = ba[off+4 : off+4+32*cl.m]
+			off += 4 + 32*cl.m
+			umsgs[j] = ab[offU+4 : offU+4+32*cl.m]
+			offU += 4 + 32*cl.m
 		}
-		if shape && be32(ba[off:]) != 32*c.m {
-			shape = false
-		}
-		cols = ba[len(ba)-tail : len(ba)-(4+32*c.m)]
-		ymsg = ba[len(ba)-32*c.m:]
-		if be32(ab[len(ab)-(4+32*c.m):]) != 32*c.m {
-			shape = false
-		}
-		umsg = ab[len(ab)-32*c.m:]
 	}
 	if !shape || len(recS.Got) != 1 || len(recS.Got[0]) != ot.K {
-		o.Fail("c20-vole-transcript-shape", detail(map[string]any{"len_ba": len(ba), "len_ab": len(ab), "tail": tail,
-			"base_receives": len(recS.Got)}))
-		return opNoLabels("-"), "transcript-shape"
+		o.Fail("c20-vole-transcript-shape", detail(map[string]any{"len_ba": len(ba), "len_ab": len(ab), "tail_ba": tailBA,
+			"tail_ab": tailAB, "base_receives": len(recS.Got)}))
+		return opWith("-"), "transcript-shape"
 	}
 
-	// ---- the sender's IKNP labels: shadow IKNPSender on the same inputs
-	var labels []ot.Label
+	// ---- the extension's row stream as the sender sees it: a shadow
+	// IKNPSender on the same base-OT output, delta and column stream, asked per
+	// call for the length rounded up to the byte-row boundary (the same chunks
+	// are read; the first m rows are the labels Sender.Mul got)
+	var stream []ot.Label
 	var shadowErr error
 	func() {
 		defer func() {
@@ -378,23 +442,38 @@ func runVole(o *hxlib.Out, c *voleCase) (string, string) {
 			}
 		}()
 		sc := p2p.NewConn(&replayRW{r: strings.NewReader(string(cols))})
+		defer sc.Close()
 		var sh *ot.IKNPSender
 		sh, shadowErr = ot.NewIKNPSender(&fixedOT{labels: recS.Got[0]}, sc, &hxlib.Tape{Data: c.delta}, nil)
-		if shadowErr == nil {
-			labels, shadowErr = sh.Send(c.m, false)
+		for _, cl := range c.calls {
+			if shadowErr != nil || cl.m == 0 {
+				continue
+			}
+			var labels []ot.Label
+			labels, shadowErr = sh.Send(roundUp8(cl.m), false)
+			if shadowErr == nil && len(labels) != roundUp8(cl.m) {
+				shadowErr = fmt.Errorf("shadow Send(%d) returned %d labels", roundUp8(cl.m), len(labels))
+			}
+			stream = append(stream, labels...)
 		}
-		sc.Close()
 	}()
-	if shadowErr != nil || len(labels) != c.m {
-		o.Fail("c20-vole-shadow", detail(map[string]any{"err": fmt.Sprint(shadowErr), "labels": len(labels)}))
-		return opNoLabels("-"), "shadow-failed"
+	if shadowErr != nil {
+		o.Fail("c20-vole-shadow", detail(map[string]any{"err": fmt.Sprint(shadowErr), "labels": len(stream)}))
+		return opWith("-"), "shadow-failed"
 	}
 	var lsb strings.Builder
-	for _, l := range labels {
+	for _, l := range stream {
 		lsb.WriteString(labelHex(l))
 	}
-	res := fmt.Sprintf("r=%s;u=%s;ymsg=%s;umsg=%s", natsHex(rs), natsHex(us), hxlib.Hex(ymsg), hxlib.Hex(umsg))
-	return opNoLabels(lsb.String()), res
+	if len(stream) == 0 {
+		lsb.WriteString("-")
+	}
+	var res strings.Builder
+	fmt.Fprintf(&res, "pos=%d", len(stream))
+	for j := range c.calls {
+		fmt.Fprintf(&res, "|r=%s;u=%s;ymsg=%s;umsg=%s", natsHex(rsAll[j]), natsHex(usAll[j]), hxlib.Hex(ymsgs[j]), hxlib.Hex(umsgs[j]))
+	}
+	return opWith(lsb.String()), res.String()
 }
 
 func pickLen(r *hxlib.Rng) int {
@@ -414,6 +493,92 @@ func pickLen(r *hxlib.Rng) int {
 	}
 }
 
+var smallModuli = []modulus{
+	{"2", big.NewInt(2), "two"}, {"3", big.NewInt(3), ""}, {"65537", big.NewInt(65537), ""},
+	{"251", big.NewInt(251), "small"}, {"2e61m1", new(big.Int).Sub(new(big.Int).Lsh(big.NewInt(1), 61), big.NewInt(1)), "small"},
+}
+
+// smallElement: few significant bytes (0, 1, p-1 of a small p, 1..4 bytes).
+func smallElement(r *hxlib.Rng, p *big.Int, o *hxlib.Out, who string) *big.Int {
+	switch r.Intn(4) {
+	case 0:
+		o.Count("elem_" + who + "_zero")
+		return big.NewInt(0)
+	case 1:
+		o.Count("elem_" + who + "_one")
+		return big.NewInt(1)
+	case 2:
+		o.Count("elem_" + who + "_pm1")
+		return new(big.Int).Sub(p, big.NewInt(1))
+	}
+	o.Count("elem_" + who + "_short")
+	return new(big.Int).SetBytes(r.Bytes(1 + r.Intn(4)))
+}
+
+// nextCall derives a follow-up call on the same pair from the history.
+func nextCall(r *hxlib.Rng, prev []voleCall, tier string, o *hxlib.Out) voleCall {
+	last := prev[len(prev)-1]
+	maxM := 0
+	for _, c := range prev {
+		if c.m > maxM {
+			maxM = c.m
+		}
+	}
+	var cl voleCall
+	switch r.Intn(12) {
+	case 0, 1:
+		cl.m, cl.how = last.m, "same-length"
+	case 2:
+		cl.m, cl.how = 1, "one"
+	case 3, 4, 5:
+		cl.m, cl.how = 1+r.Intn(maxInt(maxM, 1)), "not-longer"
+	case 6:
+		cl.m, cl.how = 1+r.Intn(8), "tiny"
+	case 7:
+		cl.m, cl.how = maxM+1+r.Intn(10), "longer"
+	case 8:
+		cl.m, cl.how = 0, "empty"
+	default:
+		cl.m, cl.how = 1+r.Intn(70), "random-short"
+	}
+	if tier == "quick" && cl.m > 600 && r.Intn(3) != 0 {
+		cl.m = 1 + r.Intn(600)
+		cl.how = "not-longer"
+	}
+	switch r.Intn(6) {
+	case 0:
+		cl.mod = last.mod
+	case 1, 2, 3:
+		cl.mod = smallModuli[r.Intn(len(smallModuli))]
+	case 4:
+		cl.mod = fixedModuli[r.Intn(len(fixedModuli))]
+	default:
+		cl.mod = randModulus(r)
+	}
+	small := r.Intn(2) == 0
+	cl.xs = make([]*big.Int, cl.m)
+	cl.ys = make([]*big.Int, cl.m)
+	for i := 0; i < cl.m; i++ {
+		if small && r.Intn(8) != 0 {
+			cl.xs[i] = smallElement(r, cl.mod.p, o, "x")
+			cl.ys[i] = smallElement(r, cl.mod.p, o, "y")
+		} else {
+			cl.xs[i] = element(r, cl.mod.p, o, "x")
+			cl.ys[i] = element(r, cl.mod.p, o, "y")
+		}
+	}
+	return cl
+}
+
+func maxInt(a, b int) int {
+	if a > b {
+		return a
+	}
+	return b
+}
+
+func byteLen(v *big.Int) int { return (v.BitLen() + 7) / 8 }
+
 func voleMain(cf *hxlib.CommonFlags, o *hxlib.Out) {
 	master := hxlib.NewRng(cf.Seed)
 	type combo struct {
@@ -429,25 +594,27 @@ func voleMain(cf *hxlib.CommonFlags, o *hxlib.Out) {
 	for idx := 0; idx < cf.N; idx++ {
 		r := master.Fork()
 		c := &voleCase{idx: idx}
+		var first voleCall
+		first.how = "first"
 		if idx < len(grid) {
-			c.m, c.mod = grid[idx].m, grid[idx].mod
+			first.m, first.mod = grid[idx].m, grid[idx].mod
 		} else {
 			if cf.Tier == "quick" {
-				c.m = 1 + r.Intn(90)
+				first.m = 1 + r.Intn(90)
 				if r.Intn(4) == 0 {
-					c.m = pickLen(r)
+					first.m = pickLen(r)
 				}
 			} else {
-				c.m = pickLen(r)
+				first.m = pickLen(r)
 				if r.Intn(12) == 0 {
 					// beyond the stated range: messages larger than the connection's 64 KiB write buffer
-					c.m = []int{2047, 2048, 2049, 3000, 4095, 4097}[r.Intn(6)]
+					first.m = []int{2047, 2048, 2049, 3000, 4095, 4097}[r.Intn(6)]
 				}
 			}
 			if r.Intn(3) == 0 {
-				c.mod = fixedModuli[r.Intn(len(fixedModuli))]
+				first.mod = fixedModuli[r.Intn(len(fixedModuli))]
 			} else {
-				c.mod = randModulus(r)
+				first.mod = randModulus(r)
 			}
 		}
 		// base OT: CO on every fourth case (128 curve operations each)
@@ -471,11 +638,22 @@ func voleMain(cf *hxlib.CommonFlags, o *hxlib.Out) {
 		if r.Intn(2) == 0 {
 			c.frag = r.Fork()
 		}
-		c.xs = make([]*big.Int, c.m)
-		c.ys = make([]*big.Int, c.m)
-		for i := 0; i < c.m; i++ {
-			c.xs[i] = element(r, c.mod.p, o, "x")
-			c.ys[i] = element(r, c.mod.p, o, "y")
+		first.xs = make([]*big.Int, first.m)
+		first.ys = make([]*big.Int, first.m)
+		for i := 0; i < first.m; i++ {
+			first.xs[i] = element(r, first.mod.p, o, "x")
+			first.ys[i] = element(r, first.mod.p, o, "y")
+		}
+		c.calls = []voleCall{first}
+		// history: 1..6 calls on the same pair (a single call on one case in five)
+		ncalls := 1
+		if idx < len(grid) {
+			ncalls = 2 + r.Intn(3)
+		} else if r.Intn(5) != 0 {
+			ncalls = 2 + r.Intn(5)
+		}
+		for len(c.calls) < ncalls {
+			c.calls = append(c.calls, nextCall(r, c.calls, cf.Tier, o))
 		}
 		if cf.Only >= 0 && cf.Only != idx {
 			continue
@@ -486,36 +664,72 @@ func voleMain(cf *hxlib.CommonFlags, o *hxlib.Out) {
 		}
 		op, res := runVole(o, c)
 		o.Op(op, res)
-		o.Count("vole_cases")
+		o.Count("vole_sessions")
+		o.Count(fmt.Sprintf("vole_session_calls_%d", len(c.calls)))
 		o.Count("vole_base_" + c.base)
-		if c.mod.class != "" {
-			o.Count("vole_mod_" + c.mod.class)
-		} else {
-			o.Count("vole_mod_" + c.mod.name)
-		}
 		if idx < len(grid) {
-			o.Count(fmt.Sprintf("vole_grid_%d_%s", c.m, c.mod.name))
+			o.Count(fmt.Sprintf("vole_grid_%d_%s", first.m, first.mod.name))
 		}
-		o.CountN("vole_elements", c.m)
-		switch {
-		case c.m == 1:
-			o.Count("vole_len_1")
-		case c.m < 8:
-			o.Count("vole_len_2..7")
-		case c.m <= 512:
-			o.Count("vole_len_8..512")
-		case c.m <= 1024:
-			o.Count("vole_len_513..1024")
-		case c.m <= 2000:
-			o.Count("vole_len_1025..2000")
-		default:
-			o.Count("vole_len_above_2000")
-		}
-		if c.m%8 != 0 {
-			o.Count("vole_len_not_mult_8")
+		slotY := map[int]int{} // widest y packed so far per vector slot
+		slotU := 0             // longest vector so far
+		for j, cl := range c.calls {
+			o.Count("vole_calls")
+			if cl.mod.class != "" {
+				o.Count("vole_mod_" + cl.mod.class)
+			} else {
+				o.Count("vole_mod_" + cl.mod.name)
+			}
+			o.CountN("vole_elements", cl.m)
+			switch {
+			case cl.m == 0:
+				o.Count("vole_len_0")
+			case cl.m == 1:
+				o.Count("vole_len_1")
+			case cl.m < 8:
+				o.Count("vole_len_2..7")
+			case cl.m <= 512:
+				o.Count("vole_len_8..512")
+			case cl.m <= 1024:
+				o.Count("vole_len_513..1024")
+			case cl.m <= 2000:
+				o.Count("vole_len_1025..2000")
+			default:
+				o.Count("vole_len_above_2000")
+			}
+			if cl.m%8 != 0 {
+				o.Count("vole_len_not_mult_8")
+			}
+			if j > 0 {
+				o.Count("vole_next_" + cl.how)
+				prev := c.calls[j-1]
+				if cl.mod.p.Cmp(prev.mod.p) < 0 {
+					o.Count("vole_next_modulus_smaller")
+				}
+				if cl.m > 0 && cl.m <= slotU {
+					o.Count("vole_next_fits_earlier_vector")
+				}
+				shrinks := false
+				for i := 0; i < cl.m; i++ {
+					if w, ok := slotY[i]; ok && byteLen(cl.ys[i]) < w {
+						shrinks = true
+						break
+					}
+				}
+				if shrinks {
+					o.Count("vole_next_slot_value_narrower")
+				}
+			}
+			for i := 0; i < cl.m; i++ {
+				if w := byteLen(cl.ys[i]); w > slotY[i] {
+					slotY[i] = w
+				}
+			}
+			if cl.m > slotU {
+				slotU = cl.m
+			}
 		}
 		if idx < 3 {
-			o.Sample(map[string]any{"mode": "vole", "m": c.m, "modulus": c.mod.name, "base": c.base, "result": hxlib.MinInt(len(res), 200)})
+			o.Sample(map[string]any{"mode": "vole", "calls": c.summary(), "base": c.base, "result_bytes": len(res)})
 		}
 	}
 }
@@ -796,6 +1010,163 @@ func fxMain(cf *hxlib.CommonFlags, o *hxlib.Out) {
 	}
 }
 
+// fxsMain: histories of gadget calls over ONE OT instance pair (as bmr runs
+// them over a peer's otSender / otReceiver): 2..8 calls mixing Fx and Fxk.
+func fxsMain(cf *hxlib.CommonFlags, o *hxlib.Out) {
+	master := hxlib.NewRng(cf.Seed)
+	specials := [][]byte{{0, 0, 0, 0}, {0xff, 0xff, 0xff, 0xff}, {1, 0, 0, 0}, {0, 0, 0, 1}, {0xfe, 0xff, 0xff, 0xff}}
+	label4 := func(r *hxlib.Rng) []byte {
+		if r.Intn(3) == 0 {
+			return append([]byte(nil), specials[r.Intn(len(specials))]...)
+		}
+		return r.Bytes(4)
+	}
+	type gcall struct {
+		k    bool // Fxk
+		rl   []byte
+		s    bmr.Label
+		a, b uint
+		wide bool
+	}
+	for idx := 0; idx < cf.N; idx++ {
+		r := master.Fork()
+		base := "ideal"
+		if idx%3 == 2 {
+			base = "co"
+		}
+		n := 2 + r.Intn(7)
+		calls := make([]gcall, n)
+		var head []byte
+		var opSB strings.Builder
+		opSB.WriteString("c20 fxs")
+		for j := range calls {
+			g := &calls[j]
+			g.k = r.Intn(2) == 0
+			g.rl = label4(r)
+			g.a, g.b = uint(r.Intn(2)), uint(r.Intn(2))
+			copy(g.s[:], label4(r))
+			if r.Intn(10) == 0 {
+				g.wide = true
+				g.b = []uint{2, 3, 256, 257}[r.Intn(4)]
+				g.a = []uint{2, 3, 255, 256, 257}[r.Intn(5)]
+			}
+			head = append(head, g.rl...)
+			if g.k {
+				fmt.Fprintf(&opSB, " fxk,%s,%s,%d", hxlib.Hex(g.rl), hxlib.Hex(g.s[:]), g.b)
+			} else {
+				fmt.Fprintf(&opSB, " fx,%s,%d,%d", hxlib.Hex(g.rl), g.a, g.b)
+			}
+		}
+		seedOT := r.Fork()
+		restSeed := r.U64()
+		if cf.Only >= 0 && cf.Only != idx {
+			continue
+		}
+		if stalls >= 2 {
+			o.Count("aborted_after_stalls")
+			break
+		}
+		op := opSB.String()
+		detail := func(extra map[string]any) map[string]any {
+			d := map[string]any{"case": idx, "base": base, "history": op,
+				"rerun": fmt.Sprintf("go run -tags verif ./cmd/c20 fxs -seed %d -n %d -tier %s -only %d (in /verif/harness)", runSeed, runN, runTier, idx)}
+			for k, v := range extra {
+				d[k] = v
+			}
+			return d
+		}
+		set, err := fxOT(base, seedOT)
+		if err != nil {
+			o.Fail("c20-fx-error", detail(map[string]any{"err": err.Error()}))
+			o.Op(op, "setup-failed")
+			continue
+		}
+		crand.Reader = &lockedReader{head: head, rest: hxlib.NewRng(restSeed)}
+		rBits := make([]uint, n)
+		xBits := make([]uint, n)
+		rLab := make([]bmr.Label, n)
+		xLab := make([]bmr.Label, n)
+		errS, errR, panS, panR, stalled := runPair(
+			func() (err error) {
+				for j, g := range calls {
+					if g.k {
+						rLab[j], err = bmr.FxkSend(set.snd, g.s)
+					} else {
+						rBits[j], err = bmr.FxSend(set.snd, g.a)
+					}
+					if err != nil {
+						return
+					}
+				}
+				return
+			},
+			func() (err error) {
+				for j, g := range calls {
+					if g.k {
+						xLab[j], err = bmr.FxkReceive(set.rcv, g.b)
+					} else {
+						xBits[j], err = bmr.FxReceive(set.rcv, g.b)
+					}
+					if err != nil {
+						return
+					}
+				}
+				return
+			}, set.close)
+		set.close()
+		ok := errS == nil && errR == nil && panS == nil && panR == nil && !stalled &&
+			len(set.snd.Sent) == n && len(set.rcv.Got) == n
+		if ok {
+			for j := 0; j < n; j++ {
+				if len(set.snd.Sent[j]) != 1 || len(set.rcv.Got[j]) != 1 {
+					ok = false
+				}
+			}
+		}
+		if !ok {
+			o.Fail("c20-fx-error", detail(map[string]any{"sender_err": fmt.Sprint(errS), "receiver_err": fmt.Sprint(errR),
+				"sender_panic": fmt.Sprint(panS), "receiver_panic": fmt.Sprint(panR), "stalled": stalled,
+				"ot_sends": len(set.snd.Sent), "ot_receives": len(set.rcv.Got)}))
+			o.Op(op, "run-failed")
+			continue
+		}
+		var res strings.Builder
+		for j, g := range calls {
+			if j > 0 {
+				res.WriteByte('|')
+			}
+			w, got := wireHex(set.snd.Sent[j][0]), labelHex(set.rcv.Got[j][0])
+			if g.k {
+				fmt.Fprintf(&res, "w=%s;got=%s;r=%s;xb=%s", w, got, hxlib.Hex(rLab[j][:]), hxlib.Hex(xLab[j][:]))
+				o.Count("fxs_fxk_calls")
+				var want bmr.Label
+				if g.b == 1 {
+					want = g.s
+				}
+				x := rLab[j]
+				x.Xor(xLab[j])
+				if !x.Equal(want) {
+					o.Fail("c20-fxk-shares", detail(map[string]any{"call": j, "b": g.b, "s": hxlib.Hex(g.s[:]), "r": hxlib.Hex(rLab[j][:]),
+						"xb": hxlib.Hex(xLab[j][:]), "want": hxlib.Hex(want[:])}))
+				}
+			} else {
+				fmt.Fprintf(&res, "w=%s;got=%s;r=%d;xb=%d", w, got, rBits[j], xBits[j])
+				o.Count("fxs_fx_calls")
+				if !g.wide && (rBits[j] > 1 || xBits[j] > 1 || rBits[j]^xBits[j] != g.a*g.b) {
+					o.Fail("c20-fx-shares", detail(map[string]any{"call": j, "a": g.a, "b": g.b, "r": rBits[j], "xb": xBits[j], "want": g.a * g.b}))
+				}
+			}
+			if j > 0 {
+				o.Count("fxs_calls_on_used_ot")
+			}
+		}
+		o.Op(op, res.String())
+		o.Count("fxs_sessions")
+		o.Count("fxs_base_" + base)
+		o.Count(fmt.Sprintf("fxs_session_calls_%d", n))
+	}
+}
+
 func main() {
 	if len(os.Args) < 2 {
 		fmt.Fprintln(os.Stderr, "usage: c20 vole|fx [flags]")
@@ -810,6 +1181,8 @@ func main() {
 		voleMain(cf, o)
 	case "fx":
 		fxMain(cf, o)
+	case "fxs":
+		fxsMain(cf, o)
 	default:
 		fmt.Fprintln(os.Stderr, "unknown mode", mode)
 		o.Close()
